@@ -241,6 +241,12 @@ def _shard_task(modname, subname, tier, seed, shard, nshards, budget_s):
         from hypothesis import given, settings, HealthCheck, Phase
         n = max(1, sub.examples.get(tier, sub.examples['quick']) // nshards)
         last_fail = {}
+        # bound the shrinker (hypothesis' own cap is 300 s per failing test): the replay file is whatever it reached by then
+        try:
+            import hypothesis.internal.conjecture.engine as _ce
+            _ce.MAX_SHRINKING_SECONDS = int(os.environ.get('VF_SHRINK_S', '20' if tier == 'quick' else '90'))
+        except Exception:
+            pass
         hseed = (seed * 1000003 + shard * 7919 + int.from_bytes(hashlib.sha1(subname.encode()).digest()[:4], 'big')) & 0xFFFFFFFF
 
         inner_strategy = base_strategy = sub.strategy(tier)
@@ -301,6 +307,54 @@ def _pack(st, t0):
     st['labels'] = dict(st['labels'])
     st['excluded'] = dict(st['excluded'])
     return st
+
+
+# ---------------------------------------------------------------------------------------------
+# process-per-task scheduler (a worker that dies or hangs costs one task, never the run)
+
+def _child(task, path):
+    import pickle
+    r = shard_task(task)
+    with open(path + '.tmp', 'wb') as f:
+        pickle.dump(r, f)
+    os.replace(path + '.tmp', path)
+    os._exit(0)
+
+
+def run_tasks(tasks, procs, task_timeout):
+    import pickle
+    ctx = multiprocessing.get_context('fork')
+    outdir = os.path.join(os.environ.get('VF_TMP', '/tmp'), 'results')
+    os.makedirs(outdir, exist_ok=True)
+    pending = list(enumerate(tasks))
+    running = {}
+    results = []
+    while pending or running:
+        while pending and len(running) < procs:
+            i, t = pending.pop(0)
+            path = os.path.join(outdir, f'r{i}.pkl')
+            p = ctx.Process(target=_child, args=(t, path), daemon=True)
+            p.start()
+            running[i] = (p, t, path, time.time())
+        time.sleep(0.02)
+        for i in list(running):
+            p, t, path, t_start = running[i]
+            if p.is_alive():
+                if time.time() - t_start > task_timeout:
+                    p.kill()
+                    p.join(5)
+                    results.append({'sub': t[1], 'shard': t[4], 'harness': f'task exceeded the hard timeout of {task_timeout:.0f}s and was killed'})
+                    del running[i]
+                continue
+            p.join()
+            if os.path.exists(path):
+                with open(path, 'rb') as f:
+                    results.append(pickle.load(f))
+                os.unlink(path)
+            else:
+                results.append({'sub': t[1], 'shard': t[4], 'harness': f'worker process died (exit code {p.exitcode}) without a result'})
+            del running[i]
+    return results
 
 
 # ---------------------------------------------------------------------------------------------
@@ -395,12 +449,8 @@ def _run_property(prop_id, mod, tier, seed, only=None, jobs=None):
         for sh in range(k):
             tasks.append((mod.__name__, s.name, tier, seed, sh, k, budget))
     # interleave so that long sub-checks start early
-    results = []
-    ctx = multiprocessing.get_context('fork')
     procs = min(int(os.environ.get('VF_PROCS', '16')), max(1, len(tasks)))
-    with ctx.Pool(procs, maxtasksperchild=1) as pool:
-        for r in pool.imap_unordered(shard_task, tasks, chunksize=1):
-            results.append(r)
+    results = run_tasks(tasks, procs, task_timeout=max(4 * budget, 600))
 
     by_sub = {}
     for r in results:
